@@ -73,11 +73,13 @@ class _SpyCommon(urwid.Widget):
         self.last_dims = None
 
     # geometry --------------------------------------------------------------
-    def dims(self, size):
+    def dims(self, size, focus=False):
+        """(cols, rows) of the canvas for `size`; may depend on the focus argument (geom frows / fcols: extra rows / columns
+        when rendered in focus -- the documented rows(size, focus) / pack(size, focus) interface allows that)"""
         raise NotImplementedError
 
     def render(self, size, focus=False):
-        cols, rows = self.dims(size)
+        cols, rows = self.dims(size, focus)
         self.last_size = tuple(size)
         self.last_dims = (cols, rows)
         self.log.append(("render", self.sid, tuple(size), bool(focus)))
@@ -101,7 +103,7 @@ class _SpyCommon(urwid.Widget):
 
     def mouse_event(self, size, event, button, col, row, focus):
         self.log.append(("mouse", self.sid, tuple(size), event, button, col, row, bool(focus)))
-        self.dims(size)  # a size of the wrong arity is rejected here exactly as in render / the cursor protocol
+        self.dims(size, focus)  # a size of the wrong arity is rejected here exactly as in render / the cursor protocol
         return self.mret
 
 
@@ -109,7 +111,7 @@ class _CursorProtocol:
     HAS_CURSOR = True
 
     def get_cursor_coords(self, size):
-        cols, rows = self.dims(size)
+        cols, rows = self.dims(size, True)  # the cursor protocol has no focus argument: it speaks about the focused widget
         return self._cursor_in(cols, rows)
 
     def get_pref_col(self, size):
@@ -118,7 +120,7 @@ class _CursorProtocol:
         return self.cur[0]
 
     def move_cursor_to_coords(self, size, col, row):
-        cols, rows = self.dims(size)
+        cols, rows = self.dims(size, True)
         if col == "left":
             x = 0
         elif col == "right":
@@ -136,18 +138,26 @@ class _CursorProtocol:
 class _FlowDims:
     _sizing = frozenset([urwid.FLOW])
 
-    def dims(self, size):
+    def dims(self, size, focus=False):
         (maxcol,) = size
-        return maxcol, self.geom["rows"]
+        return maxcol, self.geom["rows"] + (self.geom.get("frows", 0) if focus else 0)
 
     def rows(self, size, focus=False):
-        return self.geom["rows"]
+        return self.dims(size, focus)[1]
+
+    def pack(self, size, focus=False):
+        # a flow widget may report a narrower preferred width (used by 'pack' columns / Padding width='pack'); it may depend on focus
+        cols, rows = self.dims(size, focus)
+        pw = self.geom.get("packw")
+        if pw:
+            cols = min(cols, pw + (self.geom.get("fpackw", 0) if focus else 0))
+        return cols, rows
 
 
 class _BoxDims:
     _sizing = frozenset([urwid.BOX])
 
-    def dims(self, size):
+    def dims(self, size, focus=False):
         maxcol, maxrow = size
         return maxcol, maxrow
 
@@ -155,13 +165,13 @@ class _BoxDims:
 class _FixedDims:
     _sizing = frozenset([urwid.FIXED])
 
-    def dims(self, size):
+    def dims(self, size, focus=False):
         if size != ():
             raise ValueError(f"fixed spy handed size {size!r}")
-        return self.geom["cols"], self.geom["rows"]
+        return self.geom["cols"] + (self.geom.get("fcols", 0) if focus else 0), self.geom["rows"] + (self.geom.get("frows", 0) if focus else 0)
 
     def pack(self, size=(), focus=False):
-        return self.geom["cols"], self.geom["rows"]
+        return self.dims(size, focus)
 
 
 class SpyFlow(_CursorProtocol, _FlowDims, _SpyCommon):
